@@ -248,7 +248,10 @@ VPow(b, e) ==
 Cmp3(a, b) ==
     IF a.t = "undef" \/ b.t = "undef" THEN "unk"
     ELSE IF a.t # b.t
-         THEN (IF (IsNum(a) /\ ~Exact(a)) \/ (IsNum(b) /\ ~Exact(b)) THEN "unk" ELSE "ne")
+         \* a finite value against an infinity / nan / truth value: different.  (A value known
+         \* only by residues is finite too: the inverse of a zero residue is undefined here,
+         \* so no finite residue is ever produced for an infinite value.)
+         THEN "ne"
     ELSE IF a.t = "bool" THEN (IF a.b = b.b THEN "eq" ELSE "ne")
     ELSE IF ~IsNum(a) THEN "eq"
     ELSE IF a.fl = 1 \/ b.fl = 1 THEN "unk"
